@@ -216,42 +216,56 @@ func (w *witness) ReadFrom(r io.Reader) (n int64, err error) {
 	n = 8
 
 	var m int64
+	var l int
 	switch t := w.vector.(type) {
 	case fr_bn254.Vector:
 		m, err = t.ReadFrom(r)
 		w.vector = t
+		l = len(t)
 	case fr_bls12377.Vector:
 		m, err = t.ReadFrom(r)
 		w.vector = t
+		l = len(t)
 	case fr_bls12381.Vector:
 		m, err = t.ReadFrom(r)
 		w.vector = t
+		l = len(t)
 	case fr_bw6761.Vector:
 		m, err = t.ReadFrom(r)
 		w.vector = t
+		l = len(t)
 	case fr_bls24317.Vector:
 		m, err = t.ReadFrom(r)
 		w.vector = t
+		l = len(t)
 	case fr_bls24315.Vector:
 		m, err = t.ReadFrom(r)
 		w.vector = t
+		l = len(t)
 	case fr_bw6633.Vector:
 		m, err = t.ReadFrom(r)
 		w.vector = t
+		l = len(t)
 	case tinyfield.Vector:
 		m, err = t.ReadFrom(r)
 		w.vector = t
+		l = len(t)
 	case babybear.Vector:
 		m, err = t.ReadFrom(r)
 		w.vector = t
+		l = len(t)
 	case koalabear.Vector:
 		m, err = t.ReadFrom(r)
 		w.vector = t
+		l = len(t)
 	default:
 		panic("invalid input")
 	}
 
 	n += m
+	if err == nil && uint64(w.nbPublic)+uint64(w.nbSecret) != uint64(l) {
+		err = fmt.Errorf("%w: header announces %d public and %d secret values, vector has %d", ErrInvalidWitness, w.nbPublic, w.nbSecret, l)
+	}
 	return n, err
 }
 
